@@ -50,6 +50,11 @@ HU = "tornado/httputil.py"
 CLIENT = "SimpleAsyncHTTPClient"
 CONN = "_HTTPConnection"
 
+# private functions of today's client modules the rules anchor on; helpers introduced by a refactoring are inlined
+KEEP_CLIENT = {
+    "_connection_class", "_create_connection", "_get_ssl_options", "_handle_exception", "_handle_request", "_on_end_request", "_on_timeout",
+    "_process_queue", "_release", "_release_fetch", "_remove_timeout", "_run_callback", "_should_follow_redirect", "_write_body", "_async_clients",
+}
 REDIRECT_CODES = {301, 302, 303, 307, 308}
 METHODS = ["GET", "HEAD", "POST", "PUT", "DELETE", "PATCH", "OPTIONS"]
 CONTENT_HEADERS = {"content-length", "content-type", "content-encoding", "transfer-encoding"}
@@ -917,6 +922,9 @@ def run(ck):
     ck.rule("C09.strip-url-userinfo", "on the cross-origin branch the URL is rebuilt from hostname/port only when it carries userinfo")
     ck.rule("C09.strip-order", "headers and url of the redirected request are not re-assigned after the cross-origin decision, which precedes the new fetch")
     ck.rule("C09.strip-delete-effective", "HTTPHeaders.__delitem__ raises KeyError only for absent names (no KeyError-fallible operation before the removal from the authoritative store), so a swallowed KeyError cannot leave a credential header behind")
+    from ..x_inline import inline_repo
+
+    ck.repo = inline_repo(ck.repo, [SH, HC], KEEP_CLIENT)
     admission(ck)
     completion(ck)
     redirects(ck)
